@@ -228,17 +228,23 @@ def scaleVal (k : Rat) : Val → Val
   | .num x => .num (x * k)
   | .seq kd xs => .seq kd (xs.map (· * k))
 
-/-- `UnitDatabase._ConvertMatchingExp` -/
-def convMatchingExp (db : Db) (qt u v : Sym) (exp : Int) (x : Val) : Except ErrKind Val :=
-  if exp = 1 ∨ u = v then convVal db qt u v x
+/-- `UnitDatabase._ConvertMatchingExp(quantity_type, from_unit, to_unit, exp, value, in_derived)`: the plain
+conversion for exponent 1 outside a derived quantity; inside one (or with another exponent) the value is
+scaled by `(convert 1 - convert 0) ** exp`, so an offset is never applied to a factor of a product -/
+def convMatchingExp (db : Db) (qt u v : Sym) (exp : Int) (x : Val) (inDerived : Bool) : Except ErrKind Val :=
+  if u = v ∨ (exp = 1 ∧ inDerived = false) then convVal db qt u v x
   else
-    match db.convert qt u v 1, db.convert qt u v 0 with
-    | .ok a, .ok b =>
-      match powInt (a - b) exp with
-      | .ok k => .ok (scaleVal k x)
-      | .error e => .error e
-    | .error e, _ => .error e
-    | _, .error e => .error e
+    match db.convert qt u v 0 with
+    | .error e => .error e
+    | .ok zero =>
+      if exp = 1 ∧ zero = 0 then convVal db qt u v x
+      else
+        match db.convert qt u v 1 with
+        | .error e => .error e
+        | .ok one =>
+          match powInt (one - zero) exp with
+          | .ok k => .ok (scaleVal k x)
+          | .error e => .error e
 
 /-! ### unit string of a derived quantity (`_CreateUnitsWithJoinedExponentsString`) -/
 
@@ -423,23 +429,24 @@ def lookupS {β : Type} (k : Sym) : List (Sym × β) → Option β
 
 /-- one pass of the loop of `_MatchQuantities` over one (copied) dict: the first unit seen for a
 quantity type wins; a later one is converted and its `[unit, exp]` list is EDITED IN PLACE
-(`unit_exp[0] = used_unit_for_quantity_type`) -/
-def matchLoop (db : Db) : List (Sym × Ref) → List (Sym × Sym) → Val → M (List (Sym × Sym) × Val)
+(`unit_exp[0] = used_unit_for_quantity_type`); `inDerived` = `len(c) > 1` of the dict being walked -/
+def matchLoop (db : Db) (inDerived : Bool) :
+    List (Sym × Ref) → List (Sym × Sym) → Val → M (List (Sym × Sym) × Val)
   | [], found, v => pure (found, v)
   | (cat, r) :: es, found, v => do
     let p ← readPair r
     let qt ← liftE (catQType db cat)
     match lookupS qt found with
-    | none => matchLoop db es (found ++ [(qt, p.1)]) v
+    | none => matchLoop db inDerived es (found ++ [(qt, p.1)]) v
     | some used =>
-      let v' ← liftE (convMatchingExp db qt p.1 used p.2 v)
+      let v' ← liftE (convMatchingExp db qt p.1 used p.2 v inDerived)
       writeM r (.pair used p.2)
-      matchLoop db es found v'
+      matchLoop db inDerived es found v'
 
 /-- `_MatchQuantities` -/
 def matchQuantities (db : Db) (es1 es2 : List (Sym × Ref)) (v1 v2 : Val) : M (Val × Val) := do
-  let r1 ← matchLoop db es1 [] v1
-  let r2 ← matchLoop db es2 r1.1 v2
+  let r1 ← matchLoop db (decide (1 < es1.length)) es1 [] v1
+  let r2 ← matchLoop db (decide (1 < es2.length)) es2 r1.1 v2
   pure (r1.2, r2.2)
 
 /-- `set(q.GetComposingUnitsJoiningExponents())` compared as sets -/
